@@ -178,6 +178,15 @@ def do_fit(S, op, i, base_seed, check):
     exc = None
     warned_nonconv = False
     was_fitted = hasattr(model, "coef_")
+    reweight_coefs = []
+    if cls == "IterativeReweightedL1" and getattr(model, "solver", None) is not None:
+        _orig_solve = model.solver.solve
+
+        def _spy_solve(*a, **kw):
+            out = _orig_solve(*a, **kw)
+            reweight_coefs.append(np.array(out[0], dtype=float))
+            return out
+        model.solver.solve = _spy_solve
     try:
         with warnings.catch_warnings(record=True) as wlist:
             warnings.simplefilter("always")
@@ -188,6 +197,11 @@ def do_fit(S, op, i, base_seed, check):
         exc = classify_exception(e)
         if exc.get("harness"):
             raise
+    if reweight_coefs or cls == "IterativeReweightedL1":
+        try:
+            del model.solver.solve          # restore the bound method
+        except AttributeError:
+            pass
     S.logical["solves"] += 1
     S.logical["outer"] += seams.n_argpartition
     S.logical["epochs"] += seams.n_epochs
@@ -231,6 +245,8 @@ def do_fit(S, op, i, base_seed, check):
     S.last_fit[mid] = rec
     if op.get("judge", True):
         judge_fit(S, model, mid, cls, ds, Xd, yc, rec, seams, warned_nonconv, feat0, i, check, container)
+    if cls == "IterativeReweightedL1" and len(reweight_coefs) > 1:
+        judge_reweighting(S, mid, ds, Xd, reweight_coefs, feat0, i)
     # ---- C18(b): same fit alone in a pristine process
     if op.get("fresh_compare") and not S.args[mid].get("warm_start", False):
         from . import fresh
@@ -330,6 +346,8 @@ def judge_fit(S, model, mid, cls, ds, Xd, yc, rec, seams, warned_nonconv, feat0,
             props = ["C11"]
             if container != "F":
                 props.append("C10")
+            if feat0.get("refit") and feat0.get("warm_start"):
+                props.append("C05")      # a warm-started refit must solve the problem it is asked
             S.add(props, "certificate", sig0 + ("certificate", crit, "intercept_only" if only_int else "coef"),
                   dict(stop_crit=None if stop is None else float(stop), tol=tol, recomputed=cert["value"],
                        coef_part=cert["coef_part"], intercept_part=cert["intercept_part"]),
@@ -348,7 +366,8 @@ def judge_fit(S, model, mid, cls, ds, Xd, yc, rec, seams, warned_nonconv, feat0,
         margin = objective_margin(pr, w, b, dist, tol, crit, exact, Pz) \
             + (drift + f32_allow + (1e-4 * (1 + abs(Pz)) if f32 else 0.0)) * (1 + dist)
         if P > Pz + margin:
-            props = ["C11"] + (["C10"] if container != "F" else [])
+            props = ["C11"] + (["C10"] if container != "F" else []) + \
+                (["C05"] if feat0.get("refit") and feat0.get("warm_start") else [])
             S.add(props, "reference_optimum", sig0 + ("above_reference_optimum",),
                   dict(P=float(P), P_ref=float(Pz), margin=float(margin), tol=tol, dist=dist),
                   dict(feat0, gap_over_margin=float((P - Pz) / margin) if margin > 0 else float("inf"),
@@ -510,3 +529,27 @@ def do_compare(S, op, i):
               dict(feat0, gap_over_margin=float(abs(Pa - Pb) / margin) if margin > 0 else float("inf"),
                    datafit=pr.loss.name, fi=pr.fit_intercept, criterion=crit,
                    has_zero_columns=bool((~pr.absX.any(axis=0)).any())), i)
+
+
+def judge_reweighting(S, mid, ds, Xd, coefs, feat0, i):
+    """C03: iterative reweighting never increases the non-convex objective it majorises.
+    Each weighted-L1 surrogate is solved to the solver's tolerance, so the reference objective
+    of the iterate after reweighting k + 1 may exceed that of iterate k by at most what an
+    inexact surrogate solve allows (tol * ||dw||_1, subdifferential criterion)."""
+    params = dict(S.args[mid])
+    fam = dict(params["family"], knobs=params.get("knobs") or {})
+    pr, info = E.reference_problem("IterativeReweightedL1", params, Xd, np.array(ds["y"], dtype=float), family=fam)
+    tol = info["tol"]
+    objs = [pr.objective(w, 0.0) for w in coefs]
+    for k in range(1, len(objs)):
+        dw = float(np.sum(np.abs(coefs[k] - coefs[k - 1])))
+        scale = pr.rounding_scale(coefs[k], 0.0)
+        slack = 2 * tol * dw * (1 + REL) + 1e-9 * (1 + abs(objs[k - 1])) + 1e4 * EPS * scale
+        if info["criterion"] != "subdiff":
+            Lc = pr.unit_lipschitz(coefs[k], 0.0, mode="global")
+            slack += tol * (float(np.sum(Lc)) + 1.0) * (dw + pr.p * tol) + tol * pr.p * pr.pen.slope_scale() * 10
+        if objs[k] > objs[k - 1] + slack:
+            S.add(["C03"], "reweighting_descent", ("IterativeReweightedL1", "objective_increases"),
+                  dict(k=k, before=float(objs[k - 1]), after=float(objs[k]), slack=float(slack)),
+                  dict(feat0, penalty=fam["penalty"], k=k), i)
+            break
